@@ -97,6 +97,72 @@ theorem cache_hit_same_input (sign : Msg → Nat → Sig) (ci i : Msg) (cs : Sig
   · exact he
   · simp [he] at h; exact absurd h hne
 
+/-! ### the cache under arbitrary interleavings: why `GetSignature` must be one atomic step -/
+
+/-- `signHead` is an atomic get followed, on a miss, by sign and an atomic set. -/
+theorem signHead_eq (sign : Msg → Nat → Sig) (c : Cache Msg Sig) (i : Msg) (n : Nat) :
+    signHead sign c i n = match cget c i with
+      | some s => (c, s)
+      | none => (cset i (sign i n), sign i n) := by
+  unfold signHead cget cset
+  cases c with
+  | none => rfl
+  | some cs =>
+    obtain ⟨ci, s⟩ := cs
+    by_cases h : ci = i <;> simp [h]
+
+/-- **Atomic get: sound for every interleaving.** Take any schedule of atomic `get`/`set` steps of any
+    number of concurrent requests, in which every `set` stores a signature that verifies over the input
+    it is stored with (a request only stores what it has just signed). Then every hit of every `get`
+    returns a signature that verifies over *the input that get asked for*. -/
+theorem cache_atomic_get_sound (verify : Msg → Sig → Bool) (evs : List (CacheEv Msg Sig)) :
+    ∀ (c : Cache Msg Sig), CacheOK verify c → (∀ i s, CacheEv.set i s ∈ evs → verify i s = true) →
+      ∀ i s, (i, some s) ∈ runCache c evs → verify i s = true := by
+  induction evs with
+  | nil => intro c _ _ i s h; simp [runCache] at h
+  | cons ev rest ih =>
+    intro c hc hv i s h
+    cases ev with
+    | get j =>
+      simp only [runCache, List.mem_cons, Prod.mk.injEq] at h
+      rcases h with ⟨rfl, hg⟩ | h
+      · unfold cget at hg
+        cases c with
+        | none => simp at hg
+        | some cs =>
+          obtain ⟨ci, s'⟩ := cs
+          by_cases he : ci = i
+          · simp only [he, if_true, Option.some.injEq] at hg
+            exact hc i s (by rw [← hg, he])
+          · simp [he] at hg
+      · exact ih c hc (fun i s hm => hv i s (List.mem_cons_of_mem _ hm)) i s h
+    | set j t =>
+      simp only [runCache] at h
+      refine ih (cset j t) ?_ (fun i s hm => hv i s (List.mem_cons_of_mem _ hm)) i s h
+      intro i' s' he
+      simp only [cset, Option.some.injEq, Prod.mk.injEq] at he
+      rw [← he.1, ← he.2]
+      exact hv j t (List.mem_cons_self ..)
+
+/-- **Two-step get: unsound.** If "is the input cached?" and "read the signature" are two separate
+    critical sections, one `set` of another request between them makes the get hand out a signature
+    that does *not* verify over the input it was asked for — although every cache state involved is
+    valid and every section is properly locked. (Request 1 holds the old root `1`, request 2 signs and
+    stores the new root `2` in between.) -/
+theorem two_step_get_unsound :
+    ∃ (verify : Nat → Nat → Bool) (c1 c2 : Cache Nat Nat) (s : Nat),
+      CacheOK verify c1 ∧ CacheOK verify c2 ∧ c2 = cset 2 (2 + 100) ∧
+      containsThenRead c1 c2 1 = some s ∧ verify 1 s = false := by
+  refine ⟨fun m s => s == m + 100, some (1, 101), some (2, 102), 102, ?_, ?_, rfl, ?_, ?_⟩
+  · intro i s h; cases h; rfl
+  · intro i s h; cases h; rfl
+  · simp [containsThenRead, cget]
+  · rfl
+
+/-- the same schedule with the atomic get: the stale request simply misses -/
+example : runCache (some (1, 101) : Cache Nat Nat) [.set 2 102, .get 1, .get 2] = [(1, none), (2, some 102)] := by
+  decide
+
 example : CacheOK (fun (m : Nat) (s : Nat) => s == m + 1) (none : Cache Nat Nat) := by
   intro i s h; cases h
 
